@@ -654,6 +654,40 @@ inline void pairCase(Ctx& C, const Val& a, const Val& b, bool sameDoc) {
   C.end();
 }
 
+// a value compared with ITSELF (the same slot on both sides): the relation may not depend on identity
+inline void selfCase(Ctx& C, const Val& a) {
+  Case k{C, a.name, a.name, "vv", "self"};
+  C.begin(k.key("*"));
+  {
+    JsonDocument doc;
+    Operand oa = place(doc, a);
+    if (oa.bound) oa.v = doc[oa.index].as<JsonVariant>();
+    JsonVariant aV = oa.v;
+    JsonVariantConst aC = aV;
+    Expect e = refCompare(a.ref, a.ref);
+    Forms f;
+    Sig first = both(aC, aC);
+    f.add("const~const", first);
+    f.add("var~var", both(aV, aV));
+    f.add("var~const", both(aV, aC));
+    if (oa.bound) f.add("proxy~proxy", both(doc[oa.index], doc[oa.index]));
+    if (a.ref.kind == KArr) f.add("JsonArray~JsonArray", both(aV.as<JsonArray>(), aV.as<JsonArray>()));
+    if (a.ref.kind == KObj) f.add("JsonObject~JsonObject", both(aV.as<JsonObject>(), aV.as<JsonObject>()));
+    for (auto& kv : f.seen) judge(k, kv.second, kv.first, e);
+    if (a.ref.kind == KArr) {
+      JsonArrayConst x = aC.as<JsonArrayConst>();
+      judge(k, "JsonArrayConst==", Sig{uint8_t(x == x ? EQ : 0), uint8_t(x == x ? EQ : 0)}, e, false);
+    }
+    if (a.ref.kind == KObj) {
+      JsonObjectConst x = aC.as<JsonObjectConst>();
+      judge(k, "JsonObjectConst==", Sig{uint8_t(x == x ? EQ : 0), uint8_t(x == x ? EQ : 0)}, e, false);
+    }
+    C.outcome(std::string("self:") + kKindName[a.ref.kind] + ":" + bits(first.ab));
+    C.nontrivial();
+  }
+  C.end();
+}
+
 // one alphabet element against one C++ scalar, on either side
 template <class S>
 inline void scalarCases(Ctx& C, const Alphabet& A, const std::string& ctype, const std::string& value, const Ref& sref, const S& s,
@@ -795,6 +829,9 @@ inline void run(Ctx& C) {
   Alphabet A = makeAlphabet(TH);
   if (C.shard == 0 && C.only < 0) selfCheck(C, A);
 
+  // ---- 0. every value against itself
+  for (const Val& a : A.V)
+    if (C.take()) selfCase(C, a);
   // ---- 1. all ordered pairs of variants, same and different documents
   for (const Val& a : A.V)
     for (const Val& b : A.V)
